@@ -14,7 +14,8 @@ class C08(Prop):
     harness_cmd = "c08"
     n = {"quick": 500, "thorough": 8000}
     bits = {4: "a diagnostic is kept/dropped/relabelled differently from 'innermost covering filter for its lint, else the global one, else unchanged'",
-            8: "invalid_lint_filter diagnostics differ from 'unknown lint / global after code / same piece of code already filtered'"}
+            8: "invalid_lint_filter diagnostics differ from 'unknown lint / global after code / same piece of code already filtered'",
+            16: "a well-formed filter comment directly before the first token of a piece of code (statement, expression, variable, call, field, parameter, ...) is claimed by no node: it is ignored silently"}
     rule = ("three case families per seed: parse_comment on generated comment texts (valid, mangled, Unicode spaces); end to end: "
             "generated programs with 0-2 filter comments per statement (inline, comma list, block comment, global, before else/end, "
             "inside expressions, at EOF, CRLF) checked by the real Checker against the same bytes with the filters neutralised; "
